@@ -2510,8 +2510,8 @@ def _int_leaf_and_big_numbers(case, text):
     """an int64 leaf is involved and the numbers of the failing cell are beyond 2^53 (an int64 intermediate left the
     53-bit range although the leaves did not)"""
     import re as _re
-    if not any(str(f.get("dtype")) == "int64" for f in case.get("fields", [])):
-        return False
+    if not any(str(f.get("dtype")).startswith(("int", "uint")) for f in case.get("fields", [])):
+        return False          # an integer leaf of any width (an int32 field times a Python int is an int64 array)
     for tok in _re.findall(r"[-+]?\d+\.?\d*(?:[eE][-+]?\d+)?", text):
         try:
             if abs(float(tok)) >= 2.0 ** 53:
